@@ -257,10 +257,38 @@ END
     return _unit('hand/order-sensitive/AUTOMATIC', text, env, list(env), 'AUTOMATIC', False)
 
 
+def object_class(order):
+    """An information object class imported from another module: CLASS.&field always means the field's
+    type in the *defining* module, also when the importing module has a type of the same name - and
+    also on the second compile of the same dictionary (the compiler rewrites such members; it must do
+    so on a copy)."""
+    defs = _hdr('Defs', 'AUTOMATIC', False) + """\
+EXPORTS ITEM;
+Range ::= INTEGER (0..255)
+ITEM ::= CLASS { &id INTEGER UNIQUE, &value Range } WITH SYNTAX { ID &id VALUE &value }
+END
+"""
+    user = _hdr('User', 'AUTOMATIC', False) + """\
+IMPORTS ITEM FROM Defs;
+Range ::= INTEGER (0..65535)
+Msg ::= SEQUENCE { id ITEM.&id, value ITEM.&value, tail BOOLEAN }
+Two ::= SEQUENCE { a ITEM.&value OPTIONAL, b Range }
+END
+"""
+    env = {
+        'Msg': Seq((M('id', Leaf('INTEGER')), M('value', U8), M('tail', B))),
+        'Two': Seq((M('a', U8, 'O'), M('b', Leaf('INTEGER', rng=R(0, 65535))))),
+    }
+    text = defs + user if order == 0 else user + defs
+    return _unit('hand/object-class-%s/AUTOMATIC' % ('du' if order == 0 else 'ud'), text, env, list(env),
+                 'AUTOMATIC', False)
+
+
 def hand_units(tier):
     out = [compof('EXPLICIT'), compof('AUTOMATIC'), compof_set(),
            defaults('EXPLICIT', True), defaults('AUTOMATIC', False),
-           auto(False), auto(True), imports(0), imports(1), param(), ext_enum_default(), order_sensitive()]
+           auto(False), auto(True), imports(0), imports(1), param(), ext_enum_default(), order_sensitive(),
+           object_class(0), object_class(1)]
     if tier == 'thorough':
         out += [compof('IMPLICIT'), defaults('IMPLICIT', True), defaults('AUTOMATIC', True)]
     return out
